@@ -36,6 +36,9 @@ func (r *Run) rawRequest(st Step, ct *ctask) func() *Resp {
 	switch st.Op {
 	case "redeem":
 		code := r.L.Select(st.G, "code")
+		if st.V == "latest" {
+			code = r.L.SelectFromEnd(st.G, "code")
+		}
 		if code == nil {
 			return nil
 		}
